@@ -26,12 +26,15 @@ func init() {
 			"decided by evaluating the deleting code (scan + delete, maps.DeleteFunc predicate, in-package helper) under the three orderings of k and the bound; the hit/miss decision is computed from the stored requestedIdxs: " +
 			"the cache-only answer is unreachable unless the epoch is cached and the missing set is empty, the missing set is the request set minus the stored requestedIdxs (membership by set lookup or slices.Contains/Index, possibly inside an in-package helper), " +
 			"after a partial hit the beacon node is asked for exactly the missing indices of the requested epoch and the same slice is recorded as requested; " +
+			"(Z6) on the amend path of storeOrAmend*Duties (epoch already cached) a fetched duty is added only when its validator index is new, i.e. among (indices requested by this fetch) minus (indices already recorded) - " +
+			"never the fetched batch as a whole, since a concurrent overlapping request may have recorded part of it in the meantime -, the scans over the fetched duties and over the new indices run to the end " +
+			"(a validator may have several duties per epoch), and the indices recorded on that path are exactly the new ones; " +
 			"(Z5) production wiring subscribes InvalidateCache (method value or forwarding literal) to chain-reorg events and calls Trim from the slot subscriber.",
 		NotDecided: "equality with the uncached beacon answer over request histories and interleavings (a value/schedule statement); values boxed in `any` inside the metadata map are assumed immutable " +
 			"(a shallow map clone counts as a private copy).",
 		Assumptions: []string{"values boxed in `any` inside the beacon response metadata are immutable scalars (roots, booleans): copying a map[string]any one level deep isolates it"},
 		Run:         c20,
-		Mutants:     append(c20Mutants(), c20PostFixMutants()...),
+		Mutants:     append(append(c20Mutants(), c20PostFixMutants()...), c20N4Mutants()...),
 	})
 }
 
@@ -94,6 +97,9 @@ func c20(c *rt.Ctx) {
 	c.Rule("Z3", 15, func() { c20Z3(c) })
 	c.Rule("Z4", 42, func() { c20Z4(c) })
 	c.Rule("Z5", 2, func() { c20Z5(c) })
+	// Z6 (c20n4_amend.go): per role the first store, the scan over the fetched duties, the filter of the appended
+	// duties and the recorded indices
+	c.Rule("Z6", 9, func() { c20Z6(c) })
 }
 
 // ---------------------------------------------------------------------------------------------
@@ -490,6 +496,31 @@ func c20Reachable(roots []*ssa.Function) []*ssa.Function {
 
 // c20HandlesElem: fn (or one of its literals) has a value of the duty element type itself (not only slices of it).
 func c20HandlesElem(fn *ssa.Function, elem types.Type) bool {
+	// a function or literal that receives a duty (by value or by pointer) handles individual duties as well:
+	// e.g. the per-element deep copy the sync sibling needs, written as a function literal of its own
+	isElem := func(t types.Type) bool {
+		if p, ok := t.Underlying().(*types.Pointer); ok {
+			t = p.Elem()
+		}
+		return types.Identical(t, elem)
+	}
+	var lits func(f *ssa.Function) bool
+	lits = func(f *ssa.Function) bool {
+		for _, a := range f.AnonFuncs {
+			for _, p := range a.Params {
+				if isElem(p.Type()) {
+					return true
+				}
+			}
+			if lits(a) {
+				return true
+			}
+		}
+		return false
+	}
+	if lits(fn) {
+		return true
+	}
 	for _, in := range an.Instrs(fn, true) {
 		if v, ok := in.(ssa.Value); ok && v.Type() != nil && types.Identical(v.Type(), elem) {
 			return true
